@@ -243,6 +243,7 @@ pub struct Stats {
     pub classes: BTreeMap<String, u64>,
     pub samples: Vec<Value>,
     pub known_hits: BTreeMap<String, u64>,
+    pub class_secs: BTreeMap<String, f64>,
 }
 
 impl Stats {
@@ -259,6 +260,9 @@ impl Stats {
         }
         for (k, v) in o.known_hits {
             *self.known_hits.entry(k).or_default() += v;
+        }
+        for (k, v) in o.class_secs {
+            *self.class_secs.entry(k).or_default() += v;
         }
     }
 }
@@ -297,6 +301,7 @@ fn eval<P: Property>(
         strict,
         ..Ctx::default()
     };
+    let t_case = Instant::now();
     let out = match catch(|| P::check(case, &mut ctx)) {
         Ok(o) => o,
         Err(p) => {
@@ -306,8 +311,15 @@ fn eval<P: Property>(
     };
     if counting {
         stats.evaluations += ctx.sub_evals.max(1);
+        let dt = t_case.elapsed().as_secs_f64();
+        if let Some(thr) = slow_threshold() {
+            if dt > thr {
+                eprintln!("SLOW {:.3}s {}", dt, serde_json::to_string(case).unwrap_or_default());
+            }
+        }
         for l in &ctx.labels {
             *stats.classes.entry((*l).to_string()).or_default() += 1;
+            *stats.class_secs.entry((*l).to_string()).or_default() += dt;
         }
         if ctx.nontrivial {
             let (h, _) = case_hash(case);
@@ -330,11 +342,29 @@ fn eval<P: Property>(
 
 fn worker<P: Property>(tier: Tier, seed: u64, w: usize, nworkers: usize, shared: Arc<Shared>, known: Vec<KnownFinding>) -> Stats {
     let mut stats = Stats::default();
+    // strings for the huge-allocation report (leaked once per worker: they must outlive every case)
+    let abort_path: &'static str = Box::leak(format!("{}/replays/{}-abort-w{}.json\0", verif_root().display(), P::ID, w).into_boxed_str());
+    let abort_line: &'static str = Box::leak(
+        format!(
+            "VIOLATION property={} replay={}/replays/{}-abort-w{}.json\n",
+            P::ID,
+            verif_root().display(),
+            P::ID,
+            w
+        )
+        .into_boxed_str(),
+    );
+    let _ = std::fs::create_dir_all(verif_root().join("replays"));
     let set_current = |case: &P::Case| {
         let s = serde_json::to_string(case).unwrap_or_default();
-        *shared.current[w].lock().unwrap() = Some((Instant::now(), s));
+        let mut slot = shared.current[w].lock().unwrap();
+        *slot = Some((Instant::now(), s));
+        if let Some((_, s)) = &*slot {
+            crate::alloc::set_current_case(s, abort_path, abort_line);
+        }
     };
     let clear_current = || {
+        crate::alloc::clear_current_case();
         *shared.current[w].lock().unwrap() = None;
     };
 
@@ -528,6 +558,11 @@ pub fn run_property<P: Property>(tier: Tier, seed: u64) -> RunResult {
     }
 }
 
+fn slow_threshold() -> Option<f64> {
+    static T: std::sync::OnceLock<Option<f64>> = std::sync::OnceLock::new();
+    *T.get_or_init(|| std::env::var("VERIF_SLOW").ok().and_then(|s| s.parse().ok()))
+}
+
 fn hang_limit() -> Duration {
     Duration::from_secs(
         std::env::var("VERIF_HANG_SECS")
@@ -588,6 +623,7 @@ pub fn finish<P: Property>(tier: Tier, seed: u64, res: RunResult) -> i32 {
         "samples": res.stats.samples,
         "classes": res.stats.classes,
         "known_finding_hits": res.stats.known_hits,
+        "class_cpu_seconds": res.stats.class_secs.iter().map(|(k, v)| (k.clone(), (v * 100.0).round() / 100.0)).collect::<BTreeMap<_, _>>(),
         "exhaustive": P::exhaustive(tier),
         "workers": P::workers(tier),
     });
